@@ -93,6 +93,7 @@ def WF : PExpr → Bool
   | .beginKw _ => true
   | .endKw => true
   | .dirScope e => WF e
+  | .kwScope _ e => WF e
   | .ifDir a b => WF a && WF b
   | .nestl first item _ _ => WF first && WF item
   | .shaped stmts res => WFS stmts (shapeVars res) 0
